@@ -859,44 +859,33 @@ impl Compactor {
             .unwrap_or_else(|_| chrono::Duration::seconds(300));
         let cutoff = now - grace_period;
 
-        // Process pending deletions that have passed grace period
-        let chunks_to_delete: Vec<String> = {
+        // Pending deletions that have passed grace period
+        let candidates: Vec<String> = {
             let pending = self.pending_deletions.read().unwrap();
             pending
                 .iter()
                 .filter(|entry| entry.scheduled_at <= cutoff)
-                .filter(|entry| {
-                    // Skip chunks pinned by active queries
-                    if let Some(ref registry) = self.pin_registry {
-                        if registry.is_pinned(&entry.path) {
-                            debug!(path = %entry.path, "Skipping GC for pinned chunk (active query)");
-                            return false;
-                        }
-                    }
-                    true
-                })
                 .map(|entry| entry.path.clone())
                 .collect()
         };
 
-        if chunks_to_delete.is_empty() {
-            debug!("No chunks ready for garbage collection");
-            histogram!(
-                "cardinalsin_compaction_gc_duration_seconds",
-                "service" => crate::telemetry::service(),
-                "run_id" => crate::telemetry::run_id(),
-                "tenant" => crate::telemetry::tenant(),
-                "result" => "ok"
-            )
-            .record(gc_start.elapsed().as_secs_f64());
-            return Ok(());
-        }
-
-        info!(count = chunks_to_delete.len(), "Garbage collecting chunks");
-
         // Delete from object storage
+        let mut chunks_to_delete: Vec<String> = Vec::new();
         let mut failures = 0u64;
-        for path in &chunks_to_delete {
+        for path in &candidates {
+            // Skip chunks pinned by active queries. The claim is held until the delete request
+            // has completed, so a query cannot pin the chunk in between.
+            let _claim = match self.pin_registry {
+                Some(ref registry) => match registry.begin_delete(path) {
+                    Some(claim) => Some(claim),
+                    None => {
+                        debug!(path = %path, "Skipping GC for pinned chunk (active query)");
+                        continue;
+                    }
+                },
+                None => None,
+            };
+            chunks_to_delete.push(path.clone());
             match self.object_store.delete(&path.clone().into()).await {
                 Ok(_) => {
                     debug!(path = %path, "Deleted chunk from object storage");
@@ -924,6 +913,21 @@ impl Compactor {
                 }
             }
         }
+
+        if chunks_to_delete.is_empty() {
+            debug!("No chunks ready for garbage collection");
+            histogram!(
+                "cardinalsin_compaction_gc_duration_seconds",
+                "service" => crate::telemetry::service(),
+                "run_id" => crate::telemetry::run_id(),
+                "tenant" => crate::telemetry::tenant(),
+                "result" => "ok"
+            )
+            .record(gc_start.elapsed().as_secs_f64());
+            return Ok(());
+        }
+
+        info!(count = chunks_to_delete.len(), "Garbage collected chunks");
 
         // Remove from pending deletions
         {
